@@ -1,6 +1,8 @@
 """C15 - results depend only on the call's inputs, not on process history or threads."""
 from __future__ import annotations
 
+import os
+
 import contextlib
 import copy
 import io
@@ -45,6 +47,11 @@ JOBS: Dict[str, Dict[str, Any]] = {
     "eqnorb_b": {"names": ["co", "ch4"], "method": "MNDO", "converger": [2]},
     "uhf_mix_a": {"names": ["ch2o", "oh"], "method": "AM1", "converger": [1], "uhf": True},
     "uhf_mix_b": {"names": ["no", "h2o"], "method": "AM1", "converger": [1], "uhf": True},
+    # same molecule and method, one element re-parameterised through learned parameters: anything memoised per element goes stale
+    "pm6_h2s": {"names": ["h2s"], "method": "PM6", "converger": [0, 0.2]},
+    "pm6_h2s_zd": {"names": ["h2s"], "method": "PM6", "converger": [0, 0.2], "learned": {"zeta_d": 1.1}},
+    "am1_h2o_zs": {"names": ["h2o"], "method": "AM1", "converger": [1], "learned": {"zeta_s": 1.05}},
+    "pm3_hcl_b": {"names": ["hcl"], "method": "PM3", "converger": [1], "learned": {"beta_p": 0.9}},
 }
 COLLIDE = [("mix_sp2_a", "mix_sp2_b"), ("mix_a", "mix_b"), ("eqnorb_a", "eqnorb_b"), ("uhf_mix_a", "uhf_mix_b")]
 KEYS = ["Etot", "force", "q", "e_gap", "Hf"]
@@ -57,6 +64,27 @@ def _run_job(j: Dict[str, Any], shared: Dict[str, Any] = None):
         return None
     sp = esh.settings(method=j["method"], eps=j.get("eps", 1e-9), converger=j["converger"], sp2=j.get("sp2"), uhf=j.get("uhf", False), excited=j.get("excited"),
                       analytical=j.get("analytical"))
+    if j.get("learned"):
+        # re-parameterised element: tabulated value of one parameter scaled, passed as a learned parameter (fresh objects for every job)
+        import contextlib as _cl
+        import io as _io
+
+        import torch
+        from seqm.ElectronicStructure import Electronic_Structure
+        from seqm.Molecule import Molecule
+        from seqm.seqm_functions.constants import Constants
+
+        (pname, scale), = j["learned"].items()
+        s_, x_, _, _ = esh.batch(j["names"])
+        with _cl.redirect_stdout(_io.StringIO()):
+            tab = Molecule(Constants(), dict(sp, learned=[]), torch.as_tensor(x_.copy()), torch.as_tensor(s_)).parameters[pname].detach().clone()
+            spl = dict(sp, learned=[pname])
+            lp = {pname: tab * scale}
+            mol = Molecule(Constants(), spl, torch.as_tensor(x_.copy()), torch.as_tensor(s_), learned_parameters=lp)
+            es = Electronic_Structure(spl)
+            es(mol, learned_parameters=lp)
+        return {"Etot": mol.Etot.detach().numpy().copy(), "force": mol.force.detach().numpy().copy(), "q": mol.q.detach().numpy().copy(), "e_gap": mol.e_gap.detach().numpy().copy(),
+                "Hf": mol.Hf.detach().numpy().copy()}
     try:
         r = esh.run_named(j["names"], sp)
     except Exception:
@@ -235,7 +263,49 @@ def probe_object_reuse(inp: Dict[str, Any]) -> Dict[str, Any]:
     return {"ok": not bad, "observed": bad, "expected": "fresh or reused driver/dictionary objects give the same numbers", "predicate": "", "fields": {"kinds": ["object_reuse"] if bad else [], "method": inp["method"]}}
 
 
-PROBES = {"history": probe_history, "object_reuse": probe_object_reuse, "threads": probe_threads, "dict_reuse": probe_dict_reuse, "interleaved_backward": probe_interleaved_backward}
+def probe_md_driver_reuse(inp: Dict[str, Any]) -> Dict[str, Any]:
+    """one MD driver object runs trajectory A, then trajectory B (same tensor shapes, e.g. another conformer): B must be bitwise the
+    trajectory a fresh driver produces (real force engine; XL engines carry auxiliary densities between steps)"""
+    import contextlib
+    import io
+
+    import torch
+    from seqm.Molecule import Molecule
+    from seqm.seqm_functions.constants import Constants
+
+    def work(_):
+        mdh.DEFAULT_MOLS.update({k: (v[0], np.asarray(v[1]).tolist()) for k, v in esh.GEOMS.items() if k not in mdh.DEFAULT_MOLS})
+        d = mdh.scratch_dir("c15reuse")
+        sc = dict(engine=inp["engine"], stub=False, mols=inp["mols"], molid=[0], cad=dict(data=1), steps=inp["steps"], temp=300.0, k=inp.get("k", 4), dt=0.4,
+                  seqm=dict(method=inp.get("method", "AM1"), scf_eps=1e-9))
+        rng = np.random.default_rng(inp["seed"])
+        out = {}
+        with contextlib.redirect_stdout(io.StringIO()):
+            molA, md = mdh.make_md(sc, os.path.join(d, "reused"))
+            md.run(molA, inp["steps"], seed=3)
+            molB, md2 = mdh.make_md(sc, os.path.join(d, "fresh"))
+            xB = molB.coordinates.detach().clone()
+            xB = xB + (molB.species > 0).unsqueeze(-1) * torch.as_tensor(rng.normal(size=tuple(xB.shape)) * 0.05)
+            sp = md2.seqm_parameters if hasattr(md2, "seqm_parameters") else dict(method="AM1", scf_eps=1e-9, scf_converger=[1], sp2=[False])
+            mB1 = Molecule(Constants(), dict(molB.seqm_parameters), xB.clone(), molB.species.clone())
+            mB2 = Molecule(Constants(), dict(molB.seqm_parameters), xB.clone(), molB.species.clone())
+            md.run(mB1, inp["steps"], seed=9)
+            md2.run(mB2, inp["steps"], seed=9)
+        for k_, m_ in (("reused", mB1), ("fresh", mB2)):
+            out[k_] = (m_.coordinates.detach().numpy().copy(), m_.velocities.detach().numpy().copy(), m_.Etot.detach().numpy().copy())
+        return out
+    import os
+    out = mdh.call_with_timeout(work, None, 900)
+    bad = []
+    dx = float(np.abs(out["reused"][0] - out["fresh"][0]).max())
+    dE = float(np.abs(out["reused"][2] - out["fresh"][2]).max())
+    if dx != 0.0 or dE != 0.0:
+        bad.append(f"{inp['engine']}: second trajectory on a re-used driver differs from a fresh driver: |dx| = {dx:.3e} A, |dEtot| = {dE:.3e} eV after {inp['steps']} steps")
+    return {"ok": not bad, "observed": bad, "expected": "a re-used MD driver gives the trajectory of a fresh one", "predicate": "reused == fresh (bitwise)",
+            "fields": {"kinds": ["md_driver_reuse"] if bad else [], "engine": inp["engine"]}}
+
+
+PROBES = {"md_driver_reuse": probe_md_driver_reuse, "history": probe_history, "object_reuse": probe_object_reuse, "threads": probe_threads, "dict_reuse": probe_dict_reuse, "interleaved_backward": probe_interleaved_backward}
 
 
 def gen_cases(ctx: Ctx):
@@ -255,6 +325,14 @@ def gen_cases(ctx: Ctx):
     for i, (a, b) in enumerate(COLLIDE[1:] if ctx.thorough else COLLIDE[1:3]):
         a, b = (a, b) if (ctx.seed + i) % 2 == 0 else (b, a)
         cases.append(("history", {"job": b, "prefix": [a]}))
+    cases.append(("history", {"job": "pm6_h2s_zd", "prefix": ["pm6_h2s"]}))
+    cases.append(("history", {"job": ["w_am1", "pm6_h2s"][ctx.seed % 2], "prefix": [["am1_h2o_zs"], ["pm6_h2s_zd"]][ctx.seed % 2]}))
+    if ctx.thorough:
+        cases.append(("history", {"job": "am1_h2o_zs", "prefix": ["w_am1", "pm3_hcl_b"]}))
+        cases.append(("history", {"job": "pm3_hcl_b", "prefix": ["am1_h2o_zs", "w_pm3_pulay"]}))
+    engs = ["xl", "ksa", "basic", "langevin"]
+    for i, e in enumerate(engs if ctx.thorough else [engs[ctx.seed % 2], engs[2 + ctx.seed % 2]]):
+        cases.append(("md_driver_reuse", {"engine": e, "mols": [["h2o"], ["h2o", "ch4"]][(ctx.seed + i) % 2], "steps": 6, "k": [4, 6][(ctx.seed + i) % 2], "seed": int(rng.integers(0, 10**6))}))
     cases.append(("threads", {"job": "batch_mndo", "threads": [2, 7, 16] if ctx.thorough else [4, 16]}))
     cases.append(("dict_reuse", {"a": "w_am1", "b": "w_am1"}))
     cases.append(("dict_reuse", {"a": "cis_ch2o", "b": "cis_ch2o"}))
